@@ -224,10 +224,14 @@ class ExprMixin(object):
         """Evaluate a module-level / default expression (must not fork or raise)."""
         saved = st.env
         st.env = {"__fi__": _FakeFi(mod)}
+        before = set(st.fresh_oids)
         try:
             outs = list(self.ev(node, st))
         finally:
             st.env = saved
+        # module-level objects pre-exist the call being verified: they are not fresh
+        for s_, _ in outs:
+            s_.fresh_oids -= (s_.fresh_oids - before)
         if len(outs) != 1 or isinstance(outs[0][1], Raised):
             raise Unsupported("non-constant module-level expression %s" % ast.unparse(node))
         return outs[0][1]
@@ -660,6 +664,14 @@ class ExprMixin(object):
                 if self.is_str(item):
                     conds = [zand(self.str_term(item) == z3.StringVal(k), o.present.get(k, True)) for k in o.entries]
                     yield st, zor(*conds)
+                    return
+                if isinstance(item, Sym) and item.kind == "dyn" and not o.present and all(isinstance(k, str) for k in o.entries):
+                    from .dyn import hashable
+                    for s1, h in self.branch(st, hashable(item.t)):
+                        if h:
+                            yield s1, zor(*[item.t == smt.Val.S(z3.StringVal(k)) for k in o.entries])
+                        else:
+                            yield self.raise_(s1, "TypeError", "unhashable type")
                     return
             if isinstance(o, PyList) and o.items is not None:
                 for r in self.contains(st, TupleV(o.items), item):
